@@ -50,7 +50,7 @@ def required_counters(tier):
         "moment.between": 20,
         "moment.inside_running_call": 20,
         "no_type_check.above": 10,
-        "no_type_check.below": 10,
+        "no_type_check.below": 10, "no_type_check.after_first_call": 10, "disabled.calls.non_binding": 50,
         "kind.dataclass": 10,
         "kind.property": 10,
         "hooked_module.runs": 2,
@@ -170,8 +170,43 @@ def outcome(call, x, y):
         r = call(x, y)
         o = ("ret", id(r))
     except BaseException as e:  # noqa
-        o = ("exc", type(e).__name__, str(e)[:60] if isinstance(e, KeyError) else "")
+        o = ("exc", type(e).__name__, str(e)[:200] if isinstance(e, (KeyError, TypeError)) and type(e).__name__ in ("KeyError", "TypeError") else "")
     return o, list(LOG)
+
+
+def compare_nonbinding(rec, label, checker, case_base):
+    """with checking off a call that does not bind must fail exactly as the plain function's call does"""
+    import functools
+
+    from jaxtyping import Float, jaxtyped
+
+    def f(x: Float[N, "a b"], y: Float[N, "b"], *, k: int = 1) -> Float[N, "a"]:
+        LOG.append(("f",))
+        return RES
+
+    def supplies_y(g):
+        @functools.wraps(g)
+        def w(x):
+            return g(x, A(3))
+
+        return w
+
+    df = jaxtyped(typechecker=checker)(f)
+    calls = {
+        "missing": lambda g: g(A(2, 3)),
+        "too_many": lambda g: g(A(2, 3), A(3), 1, 2),
+        "unknown_kw": lambda g: g(A(2, 3), A(3), nope=1),
+        "dup": lambda g: g(A(2, 3), x=A(2, 3)),
+        "none": lambda g: g(),
+        "through_wraps_helper": lambda g: supplies_y(g)(A(2, 3)),
+    }
+    for name, c in calls.items():
+        o1, l1 = outcome(lambda x, y: c(f), None, None)
+        o2, l2 = outcome(lambda x, y: c(df), None, None)
+        rec.case((label, "nonbinding", name), True)
+        rec.count("disabled.calls.non_binding")
+        if o1[:2] != o2[:2] or o1[2:] != o2[2:] or l1 != l2:
+            rec.violation("disabled-differs", dict(case_base, input="nonbinding:" + name), f"{label}: non-binding call {name}: plain {o1} vs decorated {o2}", mechanism=f"{label.split(':')[0]}-disabled-nonbinding-differs")
 
 
 def compare_disabled(rec, label, kinds, case_base):
@@ -265,6 +300,7 @@ def arm_config_update(rec, rng):
         config.update("jaxtyping_disable", True)
         rec.count("moment.between")
         compare_disabled(rec, "update:between", kinds, base)
+        compare_nonbinding(rec, "update:between", checker, base)
         config.update("jaxtyping_disable", "0")
         check_enabled_rejects(rec, "update:between", kinds, base)
         # (3) toggled inside a running decorated call, for the next call
@@ -283,6 +319,16 @@ def arm_config_update(rec, rng):
             return None
 
         outer(A(4))
+        # (3b) typing.no_type_check applied to the wrapper AFTER it has already been called (checked) once
+        kinds = make_callables(checker)
+        fplain, fdeco = kinds["function"]
+        outcome(fdeco, *INPUTS["well"]())
+        o_bad, _ = outcome(fdeco, *INPUTS["ill_param"]())
+        if o_bad[:2] != ("exc", "TypeCheckError"):
+            rec.violation("not-rechecked", dict(base, kind="function"), f"before no_type_check: ill-typed call gave {o_bad}", mechanism="late-no-type-check-precondition")
+        fdeco = typing.no_type_check(fdeco)
+        rec.count("no_type_check.after_first_call")
+        compare_disabled(rec, "no_type_check:after-first-call", {"function": (fplain, fdeco)}, base)
         # (4) no_type_check above / below
         for mark in ("above", "below"):
             kinds = make_callables(checker, mark=mark)
